@@ -295,7 +295,9 @@ def icm_case(draw):
     k = draw(st.integers(1, n))
     pay = sorted(draw(st.lists(st.integers(0, 10 ** 5), min_size=k,
                                max_size=k)), reverse=True)
-    return dict(kind='icm', chips=chips, payouts=pay)
+    return dict(kind='icm', chips=chips, payouts=pay,
+                forms=[draw(st.sampled_from(['list', 'tuple', 'iter', 'gen']))
+                       for _ in range(2)])
 
 
 @st.composite
@@ -338,6 +340,23 @@ def budget(tier):
 
 
 @st.composite
+def partial_deal_case(draw):
+    """Deals with cards still to come (unknown opponents, incomplete
+    boards): every simulated deal must consist of distinct real cards."""
+    n = draw(st.integers(2, 4))
+    deck = [r + s for r in ORDERS['STANDARD'] for s in SUITS]
+    nb = draw(st.sampled_from([0, 0, 3, 4]))
+    known = draw(st.integers(0, n))
+    cards = draw(st.lists(st.sampled_from(deck), min_size=2 * known + nb,
+                          max_size=2 * known + nb, unique=True))
+    holes = [cards[2 * i:2 * i + 2] for i in range(known)] + \
+        [[] for _ in range(n - known)]
+    return dict(kind='partial_deal', holes=draw(st.permutations(holes)),
+                board=cards[2 * known:], samples=draw(st.integers(5, 40)),
+                seed=draw(st.integers(0, 10 ** 6)))
+
+
+@st.composite
 def range_text_case(draw):
     """Arbitrary text over the notation's alphabet: whatever is accepted
     denotes sets of two distinct real cards; whatever is not is refused with
@@ -353,7 +372,8 @@ def range_text_case(draw):
 
 def strategy(tier):
     return st.one_of(deal_case(), deal_case(), icm_case(), range_case(),
-                     range_deal_case(), range_text_case())
+                     range_deal_case(), range_text_case(),
+                     partial_deal_case())
 
 
 def ref_split(hts, holes, board):
@@ -422,6 +442,71 @@ def engine_shares(spec, holes, board):
 def check(case, stats):
     kind = case['kind']
     out = []
+    if kind == 'partial_deal':
+        import random as _random
+        holes, board = case['holes'], case['board']
+        n = len(holes)
+        seen = []
+
+        class Spy(pokerkit.StandardHighHand):
+            """Records what each simulated player is evaluated on."""
+
+            @classmethod
+            def from_game_or_none(cls, hole_cards, board_cards=()):
+                h = tuple(Card.clean(hole_cards))
+                b = tuple(Card.clean(board_cards))
+                seen.append((h, b))
+                return pokerkit.StandardHighHand.from_game_or_none(h, b)
+
+            @classmethod
+            def from_game(cls, hole_cards, board_cards=()):
+                h = tuple(Card.clean(hole_cards))
+                b = tuple(Card.clean(board_cards))
+                seen.append((h, b))
+                return pokerkit.StandardHighHand.from_game(h, b)
+
+        ranges = [[list(Card.parse(''.join(h)))] for h in holes]
+        _random.seed(case['seed'])
+        with warnings.catch_warnings():
+            warnings.simplefilter('ignore')
+            try:
+                eq = calculate_equities(
+                    ranges, list(Card.parse(''.join(board))), 2, 5,
+                    Deck.STANDARD, (Spy,), sample_count=case['samples'])
+            except Exception as e:  # noqa: BLE001
+                if not _is_engine_exception(e):
+                    raise
+                return [V(ID, 'equity', 'raised',
+                          f'{e!r} for partial deal {holes} {board}')]
+        stats.count('kind:partial_deal')
+        if any(x < -1e-12 for x in eq) or abs(sum(eq) - 1) > 1e-9:
+            return [V(ID, 'equity', 'sum',
+                      f'partial deal {holes} {board}: equities {eq}')]
+        if len(seen) % n == 0 and seen:
+            for g in range(0, len(seen), n):
+                group = seen[g:g + n]
+                brd = group[0][1]
+                cards_ = [c for h, _ in group for c in h] + list(brd)
+                if any(b != brd for _, b in group) or len(brd) != 5 or \
+                        any(len(h) != 2 for h, _ in group) or \
+                        len(set(cards_)) != len(cards_) or \
+                        not all(bool(c) for c in cards_):
+                    return [V(ID, 'equity', 'simulated_deal_not_distinct',
+                              f'partial deal {holes} board {board}: a'
+                              f' simulated deal evaluates holes'
+                              f' {[h for h, _ in group]} on boards'
+                              f' {[b for _, b in group]}')]
+            stats.count('simulated_deals_checked', len(seen) // n)
+        else:
+            stats.count('partial_deal:evaluation_order_not_grouped')
+        nt = any(not h for h in holes) or len(board) < 5
+        if nt:
+            stats.count('nontrivial')
+            stats.mark_nontrivial(('partial', tuple(map(tuple, holes)),
+                                   tuple(board), case['seed']))
+        stats.sample(dict(partial_holes=holes, board=board,
+                          equities=list(eq)), nt)
+        return []
     if kind == 'range_text':
         text, order = case['text'], case['order']
         stats.count('kind:range_text')
@@ -489,8 +574,15 @@ def check(case, stats):
         return out
     if kind == 'icm':
         chips, pay = case['chips'], case['payouts']
+
+        def _as(v, f):
+            # the documented parameter type is Iterable: one-shot iterators
+            # and generators are as good as lists
+            return {'list': list(v), 'tuple': tuple(v), 'iter': iter(v),
+                    'gen': (x for x in v)}[f]
+        fp, fc = case.get('forms') or ['list', 'list']
         try:
-            icm = calculate_icm(pay, chips)
+            icm = calculate_icm(_as(pay, fp), _as(chips, fc))
         except Exception as e:  # noqa: BLE001
             if not _is_engine_exception(e):
                 raise     # harness fault: exit 2
